@@ -231,6 +231,21 @@ def moved(txt, resnum, atom_name, vec):
     return '\n'.join(out) + '\n'
 
 
+def renumber_keep_altloc(txt, start):
+    """renumber residues consecutively from `start` keeping every other column (alternate-location tags included)"""
+    out, last, cur = [], None, start - 1
+    for l in txt.split('\n'):
+        if l[:6] in ('ATOM  ', 'HETATM'):
+            key = l[22:27]
+            if key != last:
+                cur += 1
+                last = key
+            l = l[:22] + '%4d' % cur + l[26:]
+        if l:
+            out.append(l)
+    return '\n'.join(out) + '\n'
+
+
 def models(*texts):
     """several structures as MODEL 1..n of one file"""
     out = []
